@@ -556,10 +556,16 @@ def subscriptable (cv : Val) : Bool :=
   | .stringer (.str _) _ => true      -- reflect sees the string kind of a named string type
   | _ => false
 
+/-- a subscript that can be an index: a number, or the text of one -/
+def indexLike (k : Val) : Bool := k.isNumber || (k.isString && (parseFloat k.toS).isSome)
+
 /-- `a[k]` with the evaluated key -/
+
 def stepSub (cv : Val) (k : Val) : Except String (Option Val) :=
   match cv with
-  | .str _ | .list .. | .arr .. | .stringer (.str _) _ => (match seqAt cv k.toInt with | some r => .ok r | none => .ok none)
+  | .str _ | .list .. | .arr .. | .stringer (.str _) _ =>
+    -- (a subscript that is no number is no index: nothing there — not element 0)
+    if indexLike k then (match seqAt cv k.toInt with | some r => .ok r | none => .ok none) else .ok none
   | .struct _ fields _ => .ok (fields.lookup k.toS)
   | .smap _ kvs => .ok (match k with | .str key => kvs.lookup key | _ => none)
   | .imap _ kvs => .ok (match k with | .int key => kvs.lookup key | _ => none)
